@@ -535,7 +535,13 @@ impl<'tcx, 'b> Cx<'tcx, 'b> {
                 ])
             })
             .collect();
-        let blocks: Vec<J> = body.basic_blocks.iter().map(|bb| self.block(bb, light)).collect();
+        // light bodies (derive / logos output without user tokens) only contribute call edges
+        let blocks: Vec<J> = body
+            .basic_blocks
+            .iter()
+            .filter(|bb| !light || matches!(bb.terminator().kind, TerminatorKind::Call { .. }))
+            .map(|bb| self.block(bb, light))
+            .collect();
         let mut v = vec![("arg_count", J::Int(body.arg_count as i128)), ("blocks", J::Arr(blocks))];
         if !light {
             v.push(("locals", J::Arr(locals)));
